@@ -665,12 +665,19 @@ func c07LoaderOutputReachesRenderer(r *fw.Run) {
 			}
 			for i, l := range as.Lhs {
 				lv, lsel := fw.Field(info, l)
-				rv, rsel := fw.Field(info, as.Rhs[i])
-				if lv == nil || rv == nil {
+				if lv == nil {
 					continue
 				}
 				_, lo := fw.FieldOwner(info, lsel)
-				_, ro := fw.FieldOwner(info, rsel)
+				ro := ""
+				if rv, rsel := fw.Field(info, as.Rhs[i]); rv != nil {
+					_, ro = fw.FieldOwner(info, rsel)
+				} else if c, isCall := ast.Unparen(as.Rhs[i]).(*ast.CallExpr); isCall {
+					// a hand-over through a method of the loader (the ordered extensions)
+					if fn := fw.Callee(info, c); fn != nil {
+						ro = fw.RecvNameOfFunc(fn)
+					}
+				}
 				if lo == "Resolvable" && ro == "Loader" {
 					got[lv.Name()] = true
 				}
